@@ -1818,7 +1818,7 @@ func ruleProvKey(c *Ctx, r *Rep) {
 				o := pv.Origins(ci.Common().Args[i+1])
 				ok := len(o) >= 1
 				for _, x := range o {
-					if x != own+"."+part && !strings.HasPrefix(x, "new(db.BuildArtifact)@") {
+					if x != own+"."+part && !strings.HasPrefix(x, "new(db.BuildArtifact)@") && x != "zero(complit)."+part { // an empty artifact made on the spot (here or in the helper that fetches) has no such part
 						ok = false
 					}
 				}
@@ -1835,7 +1835,7 @@ func ruleProvKey(c *Ctx, r *Rep) {
 					o := pv.Origins(v)
 					ok := len(o) >= 1
 					for _, x := range o {
-						if x != own+".Request" && !strings.HasPrefix(x, "new(db.BuildArtifact)@") {
+						if x != own+".Request" && !strings.HasPrefix(x, "new(db.BuildArtifact)@") && x != "zero(complit).Request" {
 							ok = false
 						}
 					}
